@@ -138,9 +138,16 @@ func IntFromString(str string, base int) (Object, error) {
 		convertBase = 10
 	}
 
+	// Only one sign is allowed and it must come first - don't let the
+	// conversion routines below accept another one, e.g. "--5" or "0x-5"
+	if s[0] == '+' || s[0] == '-' {
+		goto error
+	}
+
 	// Detect leading zeros which Python doesn't allow using base 0
 	if base == 0 {
-		if len(s) > 1 && s[0] == '0' && (s[1] >= '0' && s[1] <= '9') {
+		// (but any number of zeros on their own, e.g. "00", is still zero)
+		if len(s) > 1 && s[0] == '0' && (s[1] >= '0' && s[1] <= '9') && strings.TrimLeft(s, "0") != "" {
 			goto error
 		}
 	}
